@@ -32,6 +32,13 @@ def run(rep, tier, seed):
         "searcher.state_transformer.state projected after EVERY call",
         "observation values are mapped back through map_reward to the reported convention and compared as integers",
         "policy 'rungs_and_last': the rung levels kept are the milestones the trial reached in its own bracket",
-        "HyperTune / DyHPO searchers are not driven in this revision (same scheduler-side code path as bayesopt)",
+        "the HyperTune searcher is driven on the same schedules as the GP searcher (same projection); DyHPO "
+        "(type='dyhpo', searcher='dyhpo', data of the wrapped GP searcher) is driven on the promotion-type schedules: its "
+        "choice of whom to promote is not judged here (C04 does not cover it), only the data-set clauses",
     )
-    C.campaign(rep, tier, seed, tables(tier), A.INV_C14, set(A.FLAGS_C14))
+    ht = [{"searcher": "hypertune"}]
+    dy = [{"searcher": "dyhpo", "sched_type": "dyhpo"}]
+    variants = {n: ht for n in ("stop_all", "stop_rungs_max", "stop_ral", "stop_2br_rungs", "stop_all_completes")}
+    variants.update({n: ht + dy for n in ("promo_all_myopic", "promo_rungs_nockpt", "promo_ral_max", "promo_rungs_g2_completes")})
+    variants["promo_all_nockpt"] = dy
+    C.campaign(rep, tier, seed, tables(tier), A.INV_C14, set(A.FLAGS_C14), variants=variants)
